@@ -166,6 +166,13 @@ def run_seq(case, R):
         with R.lib('set-atmosphere_type'): gg.atmosphere_type = v
     with R.lib('fromgeo'):
         grid = t2grids.t2grid().fromgeo(gg)
+    if case.get('rocks', len(case['steps']) % 2 == 1):
+        # user-assigned rock types with blank-padded five-character names: one for the atmosphere blocks, one for every third block
+        R.label('rocks:blank-padded-names-assigned')
+        for nm_ in ('atm  ', ' cap ', 'r1   '): grid.add_rocktype(t2grids.rocktype(nm_))
+        for i_, b_ in enumerate(grid.blocklist):
+            if b_.atmosphere: b_.rocktype = grid.rocktype['atm  ']
+            elif i_ % 3 == 1: b_.rocktype = grid.rocktype[' cap ' if i_ % 2 else 'r1   ']
     renamed = False
     for i, c in enumerate(grid.connectionlist):       # make nad1/nad2 side-specific so a mix-up is visible
         if i % 3 == 0: c.nad1, c.nad2 = 1, 2
